@@ -48,8 +48,8 @@ ASSUMPTIONS = [
     'as-of value differs from the per-column as-of value at some target stamp',
     'KNOWN F14 (excluded by construction unless PV_C03_INCLUDE_F14=1): bare arrays whose common length is 0 while some array is longer '
     '(ts[-0:] keeps the whole array)',
-    'KNOWN F15 (excluded by construction unless PV_C03_INCLUDE_F15=1): fill method + a frame with zero rows (_nona selects zero columns); '
-    'the generator then uses a zero-row Series instead',
+    'F15 (fill method + a frame with zero rows came back without its columns) is fixed in /repo by 7d8a266 and generated again; '
+    'PV_C03_EXCLUDE_F15=1 replaces such frames by zero-row Series for runs against a tree without that fix',
 ]
 
 _BASE = datetime.datetime(2000, 1, 3)
@@ -62,7 +62,8 @@ METHODS = [None, None, 'ffill', 'bfill']
 
 INCLUDE_F11 = os.environ.get('PV_C03_INCLUDE_F11', '') == '1'
 INCLUDE_F14 = os.environ.get('PV_C03_INCLUDE_F14', '') == '1'
-INCLUDE_F15 = os.environ.get('PV_C03_INCLUDE_F15', '') == '1'
+# F15 was fixed in /repo by 7d8a266 (nona mask of a zero-row frame), so the class is generated again; PV_C03_EXCLUDE_F15=1 leaves it out for older trees
+INCLUDE_F15 = os.environ.get('PV_C03_EXCLUDE_F15', '') != '1'
 
 
 # ============================================================================================ model (pure python, on specs)
